@@ -82,9 +82,17 @@ func vC16RelayWindows(rc *runCtx) {
 	rc.res.Scenario["noise"] = vKindSet(kinds)
 	ok, stuckAt := true, ""
 	cDone, sDone := false, false
+	// decoration may keep arriving from the server's side, in many small reads, before the client's ACT is there
+	nNoise := 0
+	if tp.Bool("rw.noiseburst", 200) {
+		nNoise = 120 + tp.Draw("rw.noiseburstn", 400)
+		kinds = append(kinds, "many-reads-before-ACT")
+		rc.res.ClassKey += " burst"
+	}
+	noiseDone := nNoise == 0
 	w.Go("client", nil, func() {
 		defer func() { cDone = true }()
-		if !waitUntil(func() bool { return relay != nil && bytes.Contains(cGot, []byte("::TRZSZ:TRANSFER:")) }) {
+		if !waitUntil(func() bool { return relay != nil && bytes.Contains(cGot, []byte("::TRZSZ:TRANSFER:")) && noiseDone }) {
 			ok, stuckAt = false, "client: trigger"
 			return
 		}
@@ -101,6 +109,13 @@ func vC16RelayWindows(rc *runCtx) {
 			return
 		}
 		sOut.Write([]byte(fmt.Sprintf("\x1b7\x07::TRZSZ:TRANSFER:S:1.1.8:%013d:0\r\n", int64(4668480000000)+idSuffix+int64(tp.Draw("rw.id", 90))*100)))
+		for k := 0; k < nNoise; k++ {
+			sOut.Write([]byte([]string{"\x1b[0m", "\x1b[?25l", "\x1b[K", "\x1b[1;1H"}[k%4]))
+			if k%16 == 15 {
+				verifsim.Sleep(time.Millisecond)
+			}
+		}
+		noiseDone = true
 		if !waitUntil(func() bool { return bytes.Contains(sGot, []byte("#ACT:")) }) {
 			ok, stuckAt = false, "server: ACT"
 			return
